@@ -515,7 +515,7 @@ def main(argv=None):
     }
     if hasattr(mod, "finish_evidence"):
         mod.finish_evidence(evidence, recs)
-    if not a.no_evidence and not a.clause:
+    if not a.no_evidence and not a.clause and not os.environ.get("VF_NO_EVIDENCE"):
         EVIDENCE_DIR.mkdir(exist_ok=True)
         (EVIDENCE_DIR / f"{pid}.json").write_text(json.dumps(evidence, indent=1, sort_keys=True))
 
